@@ -175,3 +175,119 @@ pub(crate) fn export_once(update: &table::NlriChange, p: &NeighborParams) -> Cap
 pub(crate) fn as_loop(attr: &Arc<Vec<bgp::Attribute>>, local_asn: u32, confederation_id: u32) -> bool {
     is_as_loop(attr, local_asn, confederation_id)
 }
+
+// ---------------------------------------------------------------------------
+// Graceful-restart helper rig (C10)
+// ---------------------------------------------------------------------------
+
+/// What a session negotiated, as the harness generated it.
+#[derive(Clone)]
+pub(crate) struct SessionGr {
+    pub(crate) families: Vec<Family>,
+    pub(crate) gr: Option<(Vec<Family>, Duration, bool)>,
+    pub(crate) llgr: Option<Vec<(Family, Duration)>>,
+}
+
+/// The daemon's per-peer context with its real GR state machine and timer slots, driven
+/// through the daemon's own disconnect handling. The tail of `PeerSession::run` (what to
+/// drop, what to mark stale, which negotiated parameters survive the disconnect reason)
+/// and the helper side of `process_effects` are repeated here statement by statement;
+/// `apply_disconnect`, `gr_restart_timer_expired`, `llgr_timer_expired` and
+/// `spawn_llgr_timers` are the daemon's.
+pub(crate) struct GrRig {
+    context: Arc<std::sync::Mutex<PeerContext>>,
+    pub(crate) addr: IpAddr,
+}
+
+impl GrRig {
+    pub(crate) fn new(addr: IpAddr) -> Self {
+        let fsm = crate::fsm::PeerFsm::new(1, 65000, Vec::new(), 90, 0, FnvHashMap::default());
+        let conn_arbiter = Arc::new(std::sync::Mutex::new(ConnArbiter::new(fsm)));
+        let context = Arc::new(std::sync::Mutex::new(PeerContext {
+            conn_arbiter,
+            active_connect_cancel_tx: None,
+            active_connect_join_handle: None,
+            gr_state: crate::gr::GrState::new(),
+            gr_restart_timer: None,
+            llgr_family_timers: FnvHashMap::default(),
+            rtc_state: crate::rtc::RtcState::new(),
+            rtc_eor_timer: None,
+        }));
+        GrRig { context, addr }
+    }
+
+    /// end of a connection: `established` = on_established() had run (sources exist)
+    pub(crate) async fn session_down(&self, tables: &TableHandle, established: bool, s: &SessionGr, reason: Option<crate::fsm::SessionDownReason>) {
+        let negotiated_gr = if established { s.gr.clone().map(|(families, restart_time, n)| NegotiatedGr { families, restart_time, notification_enabled: n }) } else { None };
+        let negotiated_llgr = if established { s.llgr.clone().map(|families| NegotiatedLlgr { families }) } else { None };
+        let mut disconnect = DisconnectInfo { role: crate::fsm::Role::Passive, remote_addr: self.addr, export_map: ExportMap::default(), negotiated_gr: None, negotiated_llgr: None };
+        // (the tail of PeerSession::session_loop)
+        let (kept_gr, kept_llgr) = helper_mode_on_disconnect(&reason, negotiated_gr, negotiated_llgr, false);
+        if established {
+            let drop_families = families_to_drop_on_disconnect(s.families.iter(), kept_gr.as_ref(), kept_llgr.as_ref());
+            let stale_families = stale_families_on_disconnect(kept_gr.as_ref(), kept_llgr.as_ref());
+            tables.unregister_peer(self.addr, &drop_families, &stale_families);
+        }
+        disconnect.negotiated_gr = kept_gr;
+        disconnect.negotiated_llgr = kept_llgr;
+        let _ = apply_disconnect(&self.context, self.addr, tables, disconnect).await;
+    }
+
+    /// helper side of GlobalEffect::GrSessionEstablished
+    pub(crate) fn session_established(&self, tables: &TableHandle, gr_families: Vec<Family>) {
+        {
+            let mut ctx = self.context.lock().unwrap();
+            ctx.cancel_gr_timer();
+        }
+        let (delete_families, delete_llgr_families) = {
+            let mut ctx = self.context.lock().unwrap();
+            let outputs = ctx.gr_state.process(crate::gr::GrInput::SessionEstablished { gr_families });
+            if outputs.iter().any(|o| matches!(o, crate::gr::GrOutput::StopLlgrTimers)) {
+                ctx.cancel_llgr_timers();
+            }
+            (collect_delete_families(&outputs), collect_delete_llgr_families(&outputs))
+        };
+        if !delete_families.is_empty() {
+            tables.drop_stale_families(self.addr, &delete_families);
+        }
+        if !delete_llgr_families.is_empty() {
+            tables.drop_llgr_stale_families(self.addr, &delete_llgr_families);
+        }
+    }
+
+    /// helper side of GlobalEffect::GrEorReceived
+    pub(crate) fn eor(&self, tables: &TableHandle, family: Family) {
+        let (delete_families, delete_llgr_families) = {
+            let mut ctx = self.context.lock().unwrap();
+            let outputs = ctx.gr_state.process(crate::gr::GrInput::EorReceived(family));
+            (collect_delete_families(&outputs), collect_delete_llgr_families(&outputs))
+        };
+        if !delete_families.is_empty() {
+            tables.drop_stale_families(self.addr, &delete_families);
+        }
+        if !delete_llgr_families.is_empty() {
+            tables.drop_llgr_stale_families(self.addr, &delete_llgr_families);
+        }
+    }
+
+    /// (restart timer armed, families with an armed LLGR timer, GrState::is_peer_restarting)
+    pub(crate) fn timers(&self) -> (bool, Vec<Family>, bool) {
+        let ctx = self.context.lock().unwrap();
+        let gr = ctx.gr_restart_timer.as_ref().is_some_and(|t| !t.is_closed());
+        let llgr = ctx.llgr_family_timers.iter().filter(|(_, t)| !t.is_closed()).map(|(f, _)| *f).collect();
+        (gr, llgr, ctx.gr_state.is_peer_restarting())
+    }
+}
+
+/// (family, prefix, path id, stale, carries NO_LLGR) of every path the RIB holds from `addr`
+pub(crate) fn adj_in(tables: &TableHandle, addr: IpAddr, families: &[Family]) -> Vec<(Family, String, bool)> {
+    let mut out = Vec::new();
+    for f in families {
+        for d in tables.collect_paths(table::TableQuery::AdjIn(addr), *f, Vec::new(), true) {
+            for p in &d.paths {
+                out.push((*f, format!("{:?}", d.net), p.stale));
+            }
+        }
+    }
+    out
+}
